@@ -6,6 +6,8 @@ import (
 	"context"
 	"fmt"
 	"os"
+	"strconv"
+	"strings"
 
 	"grog/internal/zzverif/sym"
 )
@@ -23,6 +25,39 @@ func verifProcessRunning(pid int) bool {
 }
 
 const lockPath = "/grogroot/ws/lockfile"
+
+// classify explains a broken mutual exclusion by the decisive file-system step: the last removal of
+// the lock file and what the file contained at that moment (i.e. whose lock was deleted).
+func classify() {
+	log := sym.FSLog()
+	for i := len(log) - 1; i >= 0; i-- {
+		f := strings.SplitN(log[i], " ", 4)
+		if len(f) < 4 || f[1] != "remove" || f[2] != lockPath {
+			continue
+		}
+		remover, _ := strconv.Atoi(f[0])
+		content := strings.TrimPrefix(f[3], "content=")
+		if content == strconv.Quote(strconv.Itoa(remover)) {
+			continue // a process removing its own lock file (Unlock): not the decisive step
+		}
+		switch {
+		case content == `""`:
+			// an empty lock file: its owner had created it but not yet written its PID
+			sym.Class("removed-lock-file-before-holder-wrote-its-pid")
+		case isLivePid(content, remover):
+			sym.Class("removed-fresh-lock-after-judging-an-older-file-stale")
+		default:
+			sym.Class("lock-lost-after-removal-of-" + content)
+		}
+		return
+	}
+	sym.Class("no-removal-of-the-lock-file")
+}
+
+func isLivePid(quoted string, remover int) bool {
+	pid, err := strconv.Atoi(strings.Trim(quoted, `"`))
+	return err == nil && pid != remover && verifProcessRunning(pid)
+}
 
 // K1/K2/K3: contending processes, every interleaving of their file-system steps (within the
 // deviation bound), an optional stale lock file, and an optional crash of one process at any step.
@@ -63,10 +98,14 @@ func lockScenario(nProcs int, withCrash bool) {
 				}
 				acquired[i] = true
 				holders++
+				if holders != 1 {
+					classify()
+				}
 				sym.Assert(holders == 1, "C10.K1.at-most-one-process-holds-the-lock")
 				sym.Yield() // the build runs
 				holders--
 				if err := wl.Unlock(); err != nil {
+					classify()
 					sym.Failf("C10.unlock-returned-error")
 				}
 			})
